@@ -208,6 +208,7 @@ structure TState2 (F : Type) where
   key : Nat × Nat
   trial : List F
   pd : Option (List F)
+  axis : Option (F × F)      -- the 'time' PDFAxis (vmin, vmax)
 
 inductive TOp2 (F : Type) where
   | setLivetime (ivs : List (F × F))      -- `pdf.livetime = …`
@@ -216,15 +217,23 @@ inductive TOp2 (F : Type) where
   | livetimeMutated (ivs : List (F × F))  -- `pdf.livetime.uptime_mjd_intervals_arr = …`
   | initTrial (times : List F)            -- `initialize_for_new_trial` (constant PDF: pre-calculates)
   | getPd                                 -- `get_pd(tdm, empty parameter row)`; state effect only
+  | checkValid                            -- `assert_is_valid_for_trial_data`; state effect only
 
 section machine2
 variable [Add F] [Div F] [LE F] [DecidableLE F] [LT F] [DecidableLT F] [OfNat F 0]
+
+/-- `Livetime.time_window`: first start and last stop -/
+def winOf (ivs : List (F × F)) : Option (F × F) :=
+  match ivs.head?, ivs.getLast? with
+  | some a, some b => some (a.1, b.2)
+  | _, _ => none
 
 def upToDate (fixed : Bool) (s : TState2 F) : Bool := !fixed || (s.key == (s.ivsId, s.prof))
 
 /-- `_update_time_axis_and_S` -/
 def refresh2 (fixed : Bool) (table : Nat → F × F × (F → F → F)) (s : TState2 F) : TState2 F :=
-  { s with S := calcS table s.ivs s.prof, key := (s.ivsId, s.prof), pd := if fixed then none else s.pd }
+  { s with S := calcS table s.ivs s.prof, key := (s.ivsId, s.prof), pd := if fixed then none else s.pd,
+           axis := winOf s.ivs }
 
 /-- `_ensure_S_is_up_to_date` -/
 def ensure2 (fixed : Bool) (table : Nat → F × F × (F → F → F)) (s : TState2 F) : TState2 F :=
@@ -235,7 +244,8 @@ def pdOf (val : Nat → F → F) (s : TState2 F) : Option (List F) :=
   s.S.map (fun S => s.trial.map (timePd (val s.prof) s.ivs S))
 
 def tInit2 (table : Nat → F × F × (F → F → F)) (ivs : List (F × F)) (p : Nat) : TState2 F :=
-  { ivs := ivs, ivsId := 0, prof := p, S := calcS table ivs p, key := (0, p), trial := [], pd := none }
+  { ivs := ivs, ivsId := 0, prof := p, S := calcS table ivs p, key := (0, p), trial := [], pd := none,
+    axis := winOf ivs }
 
 def tStep2 (fixed : Bool) (table : Nat → F × F × (F → F → F)) (val : Nat → F → F) (s : TState2 F) :
     TOp2 F → TState2 F
@@ -247,11 +257,19 @@ def tStep2 (fixed : Bool) (table : Nat → F × F × (F → F → F)) (val : Nat
       let s1 := ensure2 fixed table { s with trial := times }
       { s1 with pd := pdOf val s1 }
   | .getPd => if s.pd.isSome && upToDate fixed s then s else ensure2 fixed table s
+  | .checkValid => ensure2 fixed table s
 
 /-- what `get_pd` returns in state `s` (`none` = the window query raised) -/
 def tGet (fixed : Bool) (table : Nat → F × F × (F → F → F)) (val : Nat → F → F) (s : TState2 F) :
     Option (List F) :=
   if s.pd.isSome && upToDate fixed s then s.pd else pdOf val (ensure2 fixed table s)
+
+/-- `TimePDF.assert_is_valid_for_trial_data` for one event time (after `fix: … uses the time range of
+the current live-time` the axis is brought up to date first; `fixed = false`: the axis as it is) -/
+def tValid (fixed : Bool) (table : Nat → F × F × (F → F → F)) (s : TState2 F) (t : F) : Bool :=
+  match (if fixed then ensure2 fixed table s else s).axis with
+  | some (lo, hi) => decide (lo ≤ t) && decide (t ≤ hi)
+  | none => false
 
 def tRun2 (fixed : Bool) (table : Nat → F × F × (F → F → F)) (val : Nat → F → F) (s : TState2 F)
     (ops : List (TOp2 F)) : TState2 F := ops.foldl (tStep2 fixed table val) s
@@ -368,6 +386,20 @@ def convSame (k h : List F) : List F :=
 `convolve(h, k, 'same') / convolve(ones, k, 'same')` -/
 def smooth [OfNat F 1] (k h : List F) : List F :=
   List.zipWith (fun a n => a / n) (convSame k h) (convSame k (h.map (fun _ => 1)))
+
+/-- column sum of the row-normalised smoothing matrix: how much of the content of bin `j` the smoothed
+histogram holds in total, `Σ_i k[i + c - j] / norm_i` (the smoothed band mass is
+`Σ_j p_j · colSum j`; `colSum = 1` away from the borders) -/
+def colSum [OfNat F 1] (k : List F) (n j : Nat) : F :=
+  let c := (k.length - 1) / 2
+  let N := convSame k (List.replicate n (1 : F))
+  sumSeq ((List.range n).map (fun i =>
+    sumSeq ((List.range k.length).map (fun m =>
+      if m ≤ i + c ∧ i + c - m = j then
+        match k[m]?, N[i]? with
+        | some kv, some nv => kv / nv
+        | _, _ => 0
+      else 0))))
 
 /-- the final energy density of band `j` (`k = []` : no smoothing) -/
 def energyBand [OfNat F 1] (k eE eD : List F) (evs : List (Ev F)) (j : Nat) : List F :=
